@@ -16,6 +16,20 @@ classes and "indexes the grid" for RandomUniformSampler; sample() only moves row
 Direct oracle (independent of the model): every coordinate of every row returned by sample() == an element of that
 parameter's grid, shape (batch_size, dims), float64, lower <= v <= upper + 1e-7; the user's model function of short real
 Calibrator runs only ever receives such vectors.
+
+Round 4 (generator sweep).  The oracle judges against the space AS DECLARED: reference grid arange(lower, upper + 1e-7,
+precision) on the declared float64 values, and clause `grid-definition`: the SearchSpace object holds exactly that grid
+(float64, same bytes), whatever container / dtype the declaration used (lists, tuples, ndarrays, read-only, Fortran, strided,
+numpy scalars, Python ints, int64, float32, mixed; the caller may overwrite its declaration arrays afterwards).  A case is the
+LIFE of one sampler object (`script`): sample steps interleaved with a switch to another space (same or other dimension) and
+back, attributes assigned after construction (batch_size, random_state, max_deduplication_passes, BestBatch a / b /
+perturbation_range, GP acquisition / jitter), rejected calls (short / empty / wrong-width history), a caller that overwrites
+the arrays it passed and received, a shortened history; every batch is judged against the space and the batch size in force
+at its call (model: Samplers.run_ssteps, theorem C03_main_reconfigured), also when a later step raises.  Histories and losses
+are also passed as float32 / float16 / int64 / int32 (when they hold the points exactly) / Fortran / strided / read-only /
+signed-zero / list.  Spaces: integer, far from the origin (1e5-1e8 level, O(1) spread), extreme scales (1e-9, 1e12),
+>= 2^63 points, 7-12 parameters.  Calibrations: n_jobs=2 (theta echoed in the stored series), sim_length != data length,
+two sessions with / without a restore from the checkpoint in between, convergence precision + verbose.
 """
 from __future__ import annotations
 
@@ -26,6 +40,7 @@ import json
 import math
 import signal
 from collections import Counter
+from pathlib import Path
 
 import numpy as np
 
@@ -48,6 +63,7 @@ NEEDS_HISTORY = {"bestbatch", "cors", "rf", "xgb", "gp"}
 EXPENSIVE = {"cors", "gp", "rf", "xgb"}
 CASE_TIMEOUT_S = 60
 END_TOL = 0.0000001
+BOUNDS_STATS = {"cells": 0, "needed_slack": 0, "max_fraction_of_slack_used": 0.0}
 
 
 class CaseTimeout(Exception):
@@ -120,10 +136,89 @@ def instrument(sampler, rec, log):
 
 
 # ------------------------------------------------------------------ building the objects of a case
-def make_space(case):
+DECLS = ("list", "tuple", "ndarray", "readonly", "fortran", "strided", "npscalar", "int", "int64", "float32", "mixed")
+GARBAGE = 12345.678  # what a caller who reuses its arrays writes into them (finite, on no generated grid)
+
+
+def _integral(xs):
+    return all(float(x) == math.floor(float(x)) and abs(float(x)) < 2 ** 53 for x in xs)
+
+
+def _f32_exact(xs):
+    return all(float(np.float32(x)) == float(x) for x in xs)
+
+
+def decl_applicable(space_desc, decl):
+    lo, hi, pr = space_desc["bounds"][0], space_desc["bounds"][1], space_desc["precision"]
+    if decl in ("int", "int64"):
+        return _integral(lo) and _integral(hi)  # the precision may stay a float (2.5 on integer bounds)
+    if decl == "float32":
+        return _f32_exact(lo) and _f32_exact(hi) and _f32_exact(pr)
+    return True
+
+
+def declare(space_desc, decl):
+    """The declaration (bounds, precision) in the requested container / dtype; the VALUES are those of space_desc."""
+    lo, hi, pr = list(space_desc["bounds"][0]), list(space_desc["bounds"][1]), list(space_desc["precision"])
+    if decl in (None, "list"):
+        return [lo, hi], pr
+    if decl == "tuple":
+        return (tuple(lo), tuple(hi)), tuple(pr)
+    if decl == "ndarray":
+        return np.array([lo, hi], dtype=float), np.array(pr, dtype=float)
+    if decl == "readonly":
+        b, q = np.array([lo, hi], dtype=float), np.array(pr, dtype=float)
+        b.setflags(write=False)
+        q.setflags(write=False)
+        return b, q
+    if decl == "fortran":
+        return np.asfortranarray(np.array([lo, hi], dtype=float)), np.array(pr, dtype=float)
+    if decl == "strided":
+        big = np.full((3, 2 * len(lo)), GARBAGE)
+        big[0, ::2], big[2, ::2] = lo, hi
+        bq = np.full(2 * len(pr), GARBAGE)
+        bq[::2] = pr
+        return big[::2, ::2], bq[::2]
+    if decl == "npscalar":
+        return [[np.float64(x) for x in lo], [np.float64(x) for x in hi]], [np.float64(x) for x in pr]
+    if decl == "int":  # Python ints wherever the value is integral
+        return ([[int(x) for x in lo], [int(x) for x in hi]], [int(x) if _integral([x]) else x for x in pr])
+    if decl == "int64":
+        q = np.array(pr, dtype=np.int64) if _integral(pr) else np.array(pr, dtype=float)
+        return np.array([lo, hi], dtype=np.int64), q
+    if decl == "float32":
+        return np.array([lo, hi], dtype=np.float32), np.array(pr, dtype=np.float32)
+    if decl == "mixed":  # ints and floats side by side in plain lists
+        return ([[int(x) if _integral([x]) else x for x in lo], [int(x) if _integral([x]) else x for x in hi]],
+                [int(x) if _integral([x]) else x for x in pr])
+    raise ValueError(decl)
+
+
+def reference_grid(space_desc):
+    """The declared space, independently of SearchSpace: arange(lower, upper + 1e-7, precision) on the declared float64 values
+    (search_space.py:74-81; property text: 'that parameter's precision grid')."""
+    return [np.arange(float(lo), float(hi) + END_TOL, float(p), dtype=np.float64)
+            for lo, hi, p in zip(space_desc["bounds"][0], space_desc["bounds"][1], space_desc["precision"])]
+
+
+def make_space(case, desc=None):
     from black_it.search_space import SearchSpace
 
-    return SearchSpace(case["bounds"], case["precision"], verbose=False)
+    desc = desc or case
+    decl = desc.get("decl")
+    b, p = declare(desc, decl)
+    sp = SearchSpace(b, p, verbose=bool(desc.get("space_verbose", False)))
+    if desc.get("decl_scribble"):  # the caller reuses its (writable) declaration arrays for something else
+        for a in (b, p):
+            if isinstance(a, np.ndarray) and a.flags.writeable:
+                a[...] = 40 if a.dtype.kind in "iu" else GARBAGE
+            elif isinstance(a, list):
+                for i, x in enumerate(a):
+                    if isinstance(x, list):
+                        x[:] = [GARBAGE] * len(x)
+                    else:
+                        a[i] = GARBAGE
+    return sp
 
 
 def build_sampler(case):
@@ -142,18 +237,25 @@ def build_sampler(case):
         from black_it.samplers.cors import CORSSampler
 
         s = CORSSampler(batch_size=bs, max_samples=opts.get("max_samples", 40), rho0=opts.get("rho0", 0.5),
-                        p=opts.get("p", 1.0), random_state=seed)
-    elif kind in ("rf", "xgb", "gp") and opts.get("pool") is not None:
+                        p=opts.get("p", 1.0), random_state=seed, verbose=bool(opts.get("verbose", False)))
+    elif kind in ("rf", "xgb", "gp") and opts:
         from black_it.samplers.gaussian_process import GaussianProcessSampler
         from black_it.samplers.random_forest import RandomForestSampler
         from black_it.samplers.xgboost import XGBoostSampler
 
+        pool = opts.get("pool") if opts.get("pool") is not None else 40
         if kind == "rf":
-            s = RandomForestSampler(batch_size=bs, random_state=seed, candidate_pool_size=opts["pool"], n_estimators=4, n_classes=2)
+            s = RandomForestSampler(batch_size=bs, random_state=seed, candidate_pool_size=pool,
+                                    n_estimators=opts.get("n_estimators", 4), n_classes=opts.get("n_classes", 3),
+                                    criterion=opts.get("criterion", "gini"))
         elif kind == "xgb":
-            s = XGBoostSampler(batch_size=bs, random_state=seed, candidate_pool_size=opts["pool"], n_estimators=2, max_depth=2)
+            s = XGBoostSampler(batch_size=bs, random_state=seed, candidate_pool_size=pool,
+                               n_estimators=opts.get("n_estimators", 2), max_depth=opts.get("max_depth", 2),
+                               **{k: opts[k] for k in ("colsample_bytree", "learning_rate", "alpha") if k in opts})
         else:
-            s = GaussianProcessSampler(batch_size=bs, random_state=seed, candidate_pool_size=opts["pool"], optimize_restarts=1)
+            s = GaussianProcessSampler(batch_size=bs, random_state=seed, candidate_pool_size=pool,
+                                       optimize_restarts=opts.get("restarts", 1),
+                                       **{k: opts[k] for k in ("acquisition", "jitter") if k in opts})
     else:
         s = make_sampler(kind, bs, seed)
     if kind not in FIXED_BUDGET and case.get("budget") is not None:
@@ -161,36 +263,151 @@ def build_sampler(case):
     return s
 
 
-def history_of(case, space):
+def history_points(hist_idx, losses, space):
     grid = space.param_grid
-    pts = np.array([[grid[c][i] for c, i in enumerate(row)] for row in case["hist_idx"]], dtype=float)
-    pts = pts.reshape(len(case["hist_idx"]), space.dims)
-    return pts, np.array(case["losses"], dtype=float)
+    pts = np.array([[grid[c][i] for c, i in enumerate(row)] for row in hist_idx], dtype=float)
+    pts = pts.reshape(len(hist_idx), space.dims)
+    return pts, np.array(losses, dtype=float)
+
+
+def history_of(case, space):
+    return history_points(case["hist_idx"], case["losses"], space)
+
+
+def present_history(pts, losses, hist_repr, loss_repr):
+    """The arrays the caller actually passes: same VALUES as the canonical float64 history (points stay on the grid), other
+    container / dtype / memory layout.  A dtype that cannot hold the points exactly is replaced by plain float64."""
+    p, l = np.array(pts, dtype=float), np.array(losses, dtype=float)
+    if hist_repr in ("float32", "float16", "int64", "int32"):
+        q = p.astype(hist_repr)
+        if p.size and np.array_equal(q.astype(float), p):
+            p = q
+    elif hist_repr == "fortran":
+        p = np.asfortranarray(p)
+    elif hist_repr == "strided":
+        big = np.full((2 * max(len(p), 1), 2 * p.shape[1]), GARBAGE)
+        big[: 2 * len(p) : 2, ::2] = p
+        p = big[: 2 * len(p) : 2, ::2]
+    elif hist_repr == "negzero":
+        p = p.copy()
+        p[p == 0.0] = -0.0
+    elif hist_repr == "list":
+        p = p.tolist() if len(p) else p
+    if hist_repr == "readonly" and isinstance(p, np.ndarray):
+        p.setflags(write=False)
+    if loss_repr == "float32":
+        l = l.astype(np.float32)
+    elif loss_repr == "int64":  # integer-typed losses (positive: CORS divides by the largest absolute loss)
+        l = np.maximum(np.round(l), 1).astype(np.int64)
+    elif loss_repr == "list":
+        l = l.tolist()
+    elif loss_repr == "strided":
+        big = np.full(2 * max(len(l), 1), GARBAGE)
+        big[: 2 * len(l) : 2] = l
+        l = big[: 2 * len(l) : 2]
+    elif loss_repr == "readonly":
+        l.setflags(write=False)
+    return p, l
+
+
+def steps_of(case):
+    """The life of the sampler object.  Old-style cases (ncalls / append) are `sample` steps on the case's own space."""
+    if case.get("script") is not None:
+        return case["script"]
+    return [{"op": "sample", "append": bool(case["append"][k]), "new_losses": case["new_losses"][k]} for k in range(case["ncalls"])]
 
 
 # ------------------------------------------------------------------ implementation driver (one sampler case)
 def run_sampler_case(case):
-    obs = {"error": None, "skipped": None, "calls": [], "tie_failures": [], "batches": [], "sb_log": []}
+    """Runs the script of the case on ONE sampler object.  Every batch that was returned is kept (with the space and the
+    batch size in force at that call), also when a later step raises."""
+    obs = {"error": None, "skipped": None, "tie_failures": [], "batches": [], "sb_log": [], "spaces": [], "descs": [],
+           "grid0": [], "rejected": Counter(), "space_error": None}
     rec, log = Recorder(), []
     old = signal.signal(signal.SIGALRM, _alarm)
     signal.alarm(CASE_TIMEOUT_S)
     try:
-        space = make_space(case)
-        pts, losses = history_of(case, space)
         with patched_digitize(rec), contextlib.redirect_stdout(io.StringIO()), np.errstate(all="ignore"):
+            try:
+                space = make_space(case)
+            except Exception as e:  # noqa: BLE001
+                obs["space_error"] = f"{type(e).__name__}: {str(e)[:200]}"
+                raise
+            obs["spaces"].append(space)
+            obs["descs"].append(case)
+            obs["grid0"].append([g.tobytes() for g in space.param_grid])
+            si = 0
+            pts, losses = history_of(case, space)
             smp = build_sampler(case)
             instrument(smp, rec, log)
-            for k in range(case["ncalls"]):
-                k0 = len(log)
-                grid_before = [g.tobytes() for g in space.param_grid]
-                out = smp.sample(space, pts, losses)
-                calls = log[k0:]
-                obs["batches"].append({"out": out, "calls": calls, "hist_len": len(pts),
-                                       "grid_untouched": grid_before == [g.tobytes() for g in space.param_grid]})
-                if case["append"][k] and isinstance(out, np.ndarray) and out.ndim == 2 and out.shape[1] == space.dims:
-                    pts = np.concatenate((pts, out))
-                    losses = np.concatenate((losses, np.array(case["new_losses"][k][: len(out)], dtype=float)))
-        obs["space"] = space
+            cur_bs = case["bs"]
+            passed = []  # arrays handed to the sampler / received from it so far (what a `scribble` step overwrites)
+            for step in steps_of(case):
+                op = step["op"]
+                if op == "sample":
+                    k0 = len(log)
+                    grid_before = [g.tobytes() for g in space.param_grid]
+                    p_in, l_in = present_history(pts, losses, case.get("hist_repr"), case.get("loss_repr"))
+                    out = smp.sample(space, p_in, l_in)
+                    passed += [p_in, l_in, out]
+                    calls = log[k0:]
+                    obs["batches"].append({"out": out, "out_copy": out.copy() if isinstance(out, np.ndarray) else out,
+                                           "calls": calls, "hist_len": len(pts), "space_i": si, "bs": cur_bs,
+                                           "grid_untouched": grid_before == [g.tobytes() for g in space.param_grid]})
+                    if step.get("append") and isinstance(out, np.ndarray) and out.ndim == 2 and out.shape[1] == space.dims:
+                        pts = np.concatenate((pts, out))
+                        nl = list(step.get("new_losses") or [])
+                        nl = (nl + [1.0] * len(out))[: len(out)]
+                        losses = np.concatenate((losses, np.array(nl, dtype=float)))
+                elif op == "reject":
+                    # a call that the sampler cannot serve; whatever it does, no batch of it is judged (the history is
+                    # not an admissible one) - what matters is the NEXT normal call
+                    how = step["how"]
+                    if how == "short-history":
+                        bp, bl = pts[: max(0, cur_bs - 1)], losses[: max(0, cur_bs - 1)]
+                    elif how == "empty-history":
+                        bp, bl = np.zeros((0, space.dims)), np.zeros(0)
+                    else:  # wrong-width
+                        bp, bl = np.hstack((pts, pts[:, :1])) if len(pts) else np.zeros((1, space.dims + 1)), (losses if len(pts) else np.ones(1))
+                    k0 = len(log)
+                    try:
+                        smp.sample(space, bp, bl)
+                        obs["rejected"][f"{how}:served"] += 1
+                    except CaseTimeout:
+                        raise
+                    except Exception as e:  # noqa: BLE001
+                        obs["rejected"][f"{how}:{type(e).__name__}"] += 1
+                    del log[k0:]
+                elif op == "scribble":
+                    for a in passed:
+                        if isinstance(a, np.ndarray) and a.flags.writeable:
+                            a[...] = 77 if a.dtype.kind in "iu" else GARBAGE
+                    passed = []
+                elif op == "set":
+                    setattr(smp, step["attr"], step["value"])
+                    if step["attr"] == "batch_size":
+                        cur_bs = step["value"]
+                elif op == "shrink":
+                    pts, losses = pts[: step["keep"]], losses[: step["keep"]]
+                elif op == "space":
+                    if step.get("index") is not None:  # back to a space used before (the same object)
+                        si = step["index"]
+                        space = obs["spaces"][si]
+                        desc = obs["descs"][si]
+                    else:
+                        desc = step["space"]
+                        try:
+                            space = make_space(case, desc)
+                        except Exception as e:  # noqa: BLE001
+                            obs["space_error"] = f"{type(e).__name__}: {str(e)[:200]}"
+                            raise
+                        obs["spaces"].append(space)
+                        obs["descs"].append(desc)
+                        obs["grid0"].append([g.tobytes() for g in space.param_grid])
+                        si = len(obs["spaces"]) - 1
+                    pts, losses = history_points(step["hist_idx"], step["losses"], space)
+                else:
+                    raise ValueError(op)
         obs["sb_log"] = log
     except CaseTimeout:
         obs["skipped"] = "timeout"
@@ -199,6 +416,9 @@ def run_sampler_case(case):
     finally:
         signal.alarm(0)
         signal.signal(signal.SIGALRM, old)
+    obs["sb_log"] = log
+    if obs["spaces"]:
+        obs["space"] = obs["spaces"][0]
     return obs
 
 
@@ -206,10 +426,10 @@ def run_sampler_case(case):
 def tie_checks(case, obs):
     """The model's structural claims on every recorded sample_batch call.  Returns failure strings."""
     fails = []
-    space = obs["space"]
-    grid = space.param_grid
     snapping = case["cls"] != "uniform"
     for b, batch in enumerate(obs["batches"]):
+        space = obs["spaces"][batch["space_i"]]
+        grid = space.param_grid
         rows_available = []
         for j, c in enumerate(batch["calls"]):
             where = f"sample() #{b}, sample_batch call #{j} (batch_size={c['n']})"
@@ -241,7 +461,7 @@ def tie_checks(case, obs):
                     fails.append(f"{where}: generator state could not be replayed")
                 elif exp["values"].shape != snap.shape or exp["values"].tobytes() != c["out_bytes"]:
                     fails.append(f"{where}: returned array is not param_grid[c][rng.integers(0, len, size)] column by column")
-        out = batch["out"]
+        out = batch["out_copy"]
         if isinstance(out, np.ndarray) and out.ndim == 2:
             avail = set(rows_available)
             for r, row in enumerate(out):
@@ -273,6 +493,39 @@ def grid_sets(space):
     return [set(float(x) for x in g) for g in space.param_grid]
 
 
+class DeclaredSpace:
+    """What the oracle judges against: the space AS DECLARED (float64 values of the declaration), not the SearchSpace object."""
+
+    def __init__(self, desc):
+        self.lo = [float(x) for x in desc["bounds"][0]]
+        self.hi = [float(x) for x in desc["bounds"][1]]
+        self.dims = len(self.lo)
+        self.param_grid = reference_grid(desc)
+        self.parameters_bounds = (self.lo, self.hi)
+        self.gsets = [set(float(x) for x in g) for g in self.param_grid]
+
+
+def grid_definition_fails(space, ref, grid0, what):
+    """The SearchSpace object holds exactly the declared grid, when it was built and still now (float64, same bytes)."""
+    fails = []
+    now = space.param_grid
+    if len(now) != ref.dims:
+        return [f"grid-definition: {what} has {len(now)} grid columns for {ref.dims} declared parameters"]
+    for c, (g, r) in enumerate(zip(now, ref.param_grid)):
+        if not isinstance(g, np.ndarray) or g.dtype != np.float64 or g.shape != r.shape or g.tobytes() != r.tobytes():
+            n = min(len(g), len(r))
+            diff = [i for i in range(n) if float(g[i]) != float(r[i])]
+            where = (f"first differing element #{diff[0]}: {float(g[diff[0]])!r} vs declared {float(r[diff[0]])!r}" if diff
+                     else f"{len(g)} elements (dtype {getattr(g, 'dtype', None)}) vs declared {len(r)} (float64)")
+            fails.append(f"grid-definition: {what} parameter {c}: param_grid is not arange(lower, upper + 1e-7, precision) of the "
+                         f"declared values [{ref.lo[c]!r}, {ref.hi[c]!r}]: {where}")
+            break
+        if grid0 is not None and grid0[c] != g.tobytes():
+            fails.append(f"grid-definition: {what} parameter {c}: param_grid changed after the space was built")
+            break
+    return fails
+
+
 def oracle_batch(out, bs, space, gsets, what):
     """Property statement on one returned batch.  Returns failure strings (first offending cell only per clause)."""
     fails = []
@@ -296,6 +549,11 @@ def oracle_batch(out, bs, space, gsets, what):
                 return fails
             n = len(space.param_grid[c])
             slack = 4 * n * math.ulp(max(abs(float(lo[c])), abs(float(hi[c])), END_TOL))
+            BOUNDS_STATS["cells"] += 1
+            if not (float(lo[c]) <= v <= float(hi[c]) + END_TOL):  # measured use of the slack (coverage: bounds_clause)
+                BOUNDS_STATS["needed_slack"] += 1
+                over = max(float(lo[c]) - v, v - (float(hi[c]) + END_TOL))
+                BOUNDS_STATS["max_fraction_of_slack_used"] = max(BOUNDS_STATS["max_fraction_of_slack_used"], over / slack)
             if not (float(lo[c]) - slack <= v <= float(hi[c]) + END_TOL + slack):
                 fails.append(f"bounds: {what} row {r} parameter {c}: {v!r} outside [{float(lo[c])!r}, {float(hi[c])!r} + 1e-7]")
                 return fails
@@ -303,46 +561,87 @@ def oracle_batch(out, bs, space, gsets, what):
 
 
 def oracle_sampler_case(case, obs):
+    """Every returned batch against the space DECLARED for the call and the batch size in force at the call."""
     fails = []
-    space = obs["space"]
-    gsets = grid_sets(space)
+    refs = [DeclaredSpace(d) for d in obs["descs"]]
+    for i, (sp, ref) in enumerate(zip(obs["spaces"], refs)):
+        fails += grid_definition_fails(sp, ref, obs["grid0"][i], f"space #{i} ({obs['descs'][i].get('decl') or 'list'} declaration)")
     for b, batch in enumerate(obs["batches"]):
-        fails += oracle_batch(batch["out"], case["bs"], space, gsets, f"sample() #{b}")
+        ref = refs[batch["space_i"]]
+        fails += oracle_batch(batch["out_copy"], batch["bs"], ref, ref.gsets, f"sample() #{b}")
     return fails
 
 
 # ------------------------------------------------------------------ calibrations: the model is never simulated off the space
+def echo_model(theta, N, seed):  # noqa: N803
+    """Picklable model for n_jobs > 1: the series starts with the parameter vector it was called with (bit for bit)."""
+    t = np.asarray(theta, dtype=float).ravel()
+    rng = np.random.default_rng(seed)
+    x = np.tanh(t).sum() + 0.1 * rng.standard_normal((N, 1))
+    x[: len(t), 0] = t
+    return x
+
+
 def run_calibration(case):
+    """Short real Calibrator runs.  Observed: the `theta` the model function receives (in-process runs: recorded by the
+    function itself; n_jobs > 1: echoed at the head of every stored series) and calibrator.params_samp, over one or more
+    calibrate() sessions, optionally with a restore from the checkpoint in between."""
+    import shutil
+    import tempfile
+    import warnings
+
     from black_it.calibrator import Calibrator
     from black_it.loss_functions.minkowski import MinkowskiLoss
+    from black_it.loss_functions.msm import MethodOfMomentsLoss
 
     obs = {"error": None, "skipped": None, "thetas": [], "fails": []}
     thetas = []
 
     def model(theta, N, seed):  # noqa: N803
         thetas.append(np.array(theta, dtype=float, copy=True))
-        rng = np.random.default_rng(seed)
-        t = np.asarray(theta, dtype=float)
-        return (np.tanh(t).sum() + 0.1 * rng.standard_normal((N, 1)))
+        return echo_model(theta, N, seed)
 
     old = signal.signal(signal.SIGALRM, _alarm)
     signal.alarm(3 * CASE_TIMEOUT_S)
+    folder = None
     try:
-        with contextlib.redirect_stdout(io.StringIO()), np.errstate(all="ignore"):
+        ref = DeclaredSpace(case)
+        n_jobs = case.get("n_jobs", 1)
+        sessions = case.get("sessions") or [case["nbatches"]]
+        real_len = 12
+        sim_length = case.get("sim_length")
+        fn = echo_model if n_jobs != 1 else model
+        with contextlib.redirect_stdout(io.StringIO()), np.errstate(all="ignore"), warnings.catch_warnings():
+            warnings.simplefilter("ignore")
             samplers = [make_sampler(k, bs, 100 + i) for i, (k, bs) in enumerate(case["lineup"])]
-            real = model(case["true_theta"], 12, 4242)
-            thetas.clear()
-            cal = Calibrator(loss_function=MinkowskiLoss(), real_data=real, model=model, parameters_bounds=case["bounds"],
-                             parameters_precision=case["precision"], ensemble_size=case["ensemble"], samplers=samplers,
-                             convergence_precision=None, verbose=False, saving_folder=None, random_state=case["seed"], n_jobs=1)
-            cal.calibrate(case["nbatches"])
+            real = echo_model(case["true_theta"], real_len, 4242)
+            b, p = declare(case, case.get("decl"))
+            if case.get("saving_folder") or case.get("restore_between"):
+                folder = tempfile.mkdtemp(prefix="c03cal", dir="/var/tmp/rw") if Path("/var/tmp/rw").is_dir() else tempfile.mkdtemp(prefix="c03cal")
+            cal = Calibrator(loss_function=MethodOfMomentsLoss() if sim_length else MinkowskiLoss(), real_data=real, model=fn, parameters_bounds=b,
+                             parameters_precision=p, ensemble_size=case["ensemble"], samplers=samplers,
+                             sim_length=sim_length, convergence_precision=case.get("convergence_precision"),
+                             verbose=bool(case.get("verbose", False)), saving_folder=folder, random_state=case["seed"], n_jobs=n_jobs)
+            for si, nb in enumerate(sessions):
+                if si > 0 and case.get("restore_between"):
+                    cal = Calibrator.restore_from_checkpoint(folder, model=fn)
+                cal.calibrate(nb)
         space = cal.param_grid
-        gsets = grid_sets(space)
-        arr = np.array(thetas).reshape(len(thetas), space.dims) if thetas else np.zeros((0, space.dims))
-        obs["n_sim"] = len(thetas)
-        obs["fails"] += oracle_batch(arr, len(thetas), space, gsets, "model(theta) arguments")
-        obs["fails"] += oracle_batch(cal.params_samp, len(cal.params_samp), space, gsets, "calibrator.params_samp")
-        want = sum(case["lineup"][i % len(case["lineup"])][1] for i in range(case["nbatches"])) * case["ensemble"]
+        obs["fails"] += grid_definition_fails(space, ref, None, f"the calibrator's space ({case.get('decl') or 'list'} declaration)")
+        if n_jobs != 1:  # the argument the (out-of-process) model received, as echoed in the stored series
+            ser = np.asarray(cal.series_samp)
+            seen = ser[:, :, : ref.dims, 0].reshape(-1, ref.dims) if ser.size and ser.shape[2] >= ref.dims else np.zeros((0, ref.dims))
+        else:
+            seen = np.array(thetas).reshape(len(thetas), ref.dims) if thetas else np.zeros((0, ref.dims))
+        obs["n_sim"] = len(seen)
+        obs["fails"] += oracle_batch(seen, len(seen), ref, ref.gsets, "model(theta) arguments")
+        obs["fails"] += oracle_batch(cal.params_samp, len(cal.params_samp), ref, ref.gsets, "calibrator.params_samp")
+        if len(seen) and len(cal.params_samp) * case["ensemble"] == len(seen):
+            rep = np.repeat(cal.params_samp, case["ensemble"], axis=0)
+            if rep.tobytes() != np.ascontiguousarray(seen, dtype=float).tobytes() and not case.get("restore_between"):
+                obs["fails"].append("membership: the parameters the model was run at are not, bit for bit, the rows of "
+                                    "calibrator.params_samp (each repeated ensemble_size times)")
+        want = sum(case["lineup"][i % len(case["lineup"])][1] for i in range(sum(sessions))) * case["ensemble"]
         obs["expected_sims"] = want
     except CaseTimeout:
         obs["skipped"] = "timeout"
@@ -351,6 +650,17 @@ def run_calibration(case):
     finally:
         signal.alarm(0)
         signal.signal(signal.SIGALRM, old)
+        if folder:
+            shutil.rmtree(folder, ignore_errors=True)
+        if case.get("n_jobs", 1) != 1:
+            # the loky workers would outlive the check (vcheck leaves with os._exit) and keep its stdout open for their
+            # 300 s idle time-out
+            try:
+                from joblib.externals.loky import get_reusable_executor
+
+                get_reusable_executor().shutdown(wait=True, kill_workers=True)
+            except Exception:  # noqa: BLE001
+                pass
     return obs
 
 
@@ -376,6 +686,41 @@ def gen_param(rng, flavour):
         while not step <= hi - lo:  # float rounding of the range (e.g. -0.9 - -1.0 < 0.1) would make the spec invalid
             hi = float(np.nextafter(hi, np.inf))
         return lo, hi, step, "tiny"
+    if flavour == "int":  # integer bounds (declared as Python ints / int64 arrays), integer or fractional precision
+        lo = float(rng.randint(-50, 50))
+        step = rng.choice([1.0, 1.0, 2.0, 3.0, 5.0, 0.5, 0.25, 2.5, 1.5])
+        npts = rng.randint(2, 40)
+        hi = float(math.floor(lo + step * (npts - 1) + rng.choice([0.0, 0.0, 1.0])))
+        while not step <= hi - lo:
+            hi += 1.0
+        return lo, hi, step, "int"
+    if flavour == "far":  # level 1e5 .. 1e8 with O(1) variation
+        level = rng.choice([-1.0, 1.0]) * nice(10.0 ** rng.randint(5, 8) * rng.uniform(1.0, 9.0))
+        width = nice(rng.uniform(0.5, 20.0))
+        npts = rng.randint(2, 200)
+        lo, hi = level, level + width
+        prec = nice((hi - lo) / npts) if rng.below(2) else nice((hi - lo) / (npts + rng.uniform(0.05, 0.95)))
+        if not (0 < prec <= hi - lo):
+            prec = (hi - lo) / 2
+        return lo, hi, prec, "far"
+    if flavour == "huge":  # 1600 .. 4000 points per parameter: six of them make a space of more than 2^63 points
+        npts = rng.randint(1600, 4000)
+        lo = nice(rng.uniform(-3.0, 3.0))
+        prec = rng.choice([0.001, 0.0005, 0.002, 1.0 / 1024])
+        return lo, lo + prec * npts, prec, "huge"
+    if flavour == "extreme":
+        small = rng.below(2) == 0
+        scale = 10.0 ** (rng.randint(-9, -7) if small else rng.randint(7, 12))
+        width = scale * rng.uniform(0.2, 2.0)
+        lo = nice(rng.choice([0.0, -width * rng.uniform(0.1, 0.9), scale * rng.uniform(0.0, 1.0), -width]))
+        hi = nice(lo + width)
+        if not hi > lo:
+            hi = lo + scale
+        npts = rng.randint(2, 12) if small else rng.randint(2, 300)  # small: the 1e-7 end tolerance adds 1e-7/precision points
+        prec = nice((hi - lo) / npts) if rng.below(2) else nice((hi - lo) / (npts + rng.uniform(0.05, 0.95)))
+        if not (0 < prec <= hi - lo):
+            prec = (hi - lo) / 2
+        return lo, hi, prec, "extreme-small" if small else "extreme-big"
     scale = 10.0 ** rng.randint(-6, 6)
     sign = rng.choice(["pos", "neg", "straddle", "zero-lo", "zero-hi", "offset"])
     width = scale * rng.uniform(0.2, 2.0)
@@ -422,21 +767,46 @@ WITNESS_SPACES = [
 ]
 
 
-def gen_space(rng, max_dims=6):
+def gen_space(rng, max_dims=6, wide=True):
+    """A declared space.  `wide`: also the round-4 flavours (integer / far-from-origin / extreme scales / >= 2^63 points /
+    more than 6 parameters) and the round-4 declaration representations."""
     k = rng.below(20)
     if k < 2:
         w = rng.choice(WITNESS_SPACES)
-        return {"bounds": [list(w["bounds"][0]), list(w["bounds"][1])], "precision": list(w["precision"]), "tag": w["tag"]}
-    flavour = "dyadic" if k < 5 else "tiny" if k < 8 else "generic"
-    dims = rng.randint(1, 2) if flavour == "tiny" else rng.randint(1, max_dims)
-    lo, hi, pr, tags = [], [], [], []
-    for _ in range(dims):
-        a, b, p, t = gen_param(rng, flavour)
-        lo.append(a)
-        hi.append(b)
-        pr.append(p)
-        tags.append(t)
-    return {"bounds": [lo, hi], "precision": pr, "tag": flavour}
+        sp = {"bounds": [list(w["bounds"][0]), list(w["bounds"][1])], "precision": list(w["precision"]), "tag": w["tag"]}
+    else:
+        flavour = "dyadic" if k < 5 else "tiny" if k < 8 else "generic"
+        dims = rng.randint(1, 2) if flavour == "tiny" else rng.randint(1, max_dims)
+        if wide and k >= 8:
+            j = rng.below(12)
+            if j < 2:
+                flavour = "int"
+            elif j < 4:
+                flavour = "far"
+            elif j == 4:
+                flavour = "extreme"
+            elif j == 5 and max_dims >= 6:
+                flavour, dims = "huge", 6
+            elif j == 6 and max_dims >= 6:
+                dims = rng.randint(7, 12)  # beyond the 1-6 of the quantifier; the statement says "whatever the search space"
+        lo, hi, pr = [], [], []
+        for _ in range(dims):
+            a, b, p, _t = gen_param(rng, flavour)
+            lo.append(a)
+            hi.append(b)
+            pr.append(p)
+        sp = {"bounds": [lo, hi], "precision": pr, "tag": flavour + ("/many-dims" if dims > 6 else "")}
+    if wide:
+        decl = rng.choice(DECLS) if rng.below(2) else "list"
+        if decl_applicable(sp, decl) and decl != "list":
+            sp["decl"] = decl
+            if decl in ("ndarray", "fortran", "strided", "int64", "float32", "list", "mixed", "int", "npscalar") and rng.below(2):
+                sp["decl_scribble"] = True
+        elif sp["tag"].startswith("int"):
+            sp["decl"] = "int"
+        if rng.below(6) == 0:
+            sp["space_verbose"] = True
+    return sp
 
 
 def grid_lengths(space_desc):
@@ -458,9 +828,32 @@ def gen_losses(rng, n):
     return [rng.uniform(0.01, 5.0) for _ in range(n)]
 
 
-def gen_sampler_case(rng, kind, space_desc=None):
+def _unique_rows(rows):
+    seen, uniq = set(), []
+    for row in rows:
+        if tuple(row) not in seen:
+            seen.add(tuple(row))
+            uniq.append(row)
+    return uniq
+
+
+def gen_history(rng, kind, lens, nh):
+    hist_idx = [[rng.below(n) for n in lens] for _ in range(nh)]
+    if kind == "gp":  # a repeated history point makes sklearn's kernel matrix singular (LinAlgError, not a C03 matter)
+        hist_idx = _unique_rows(hist_idx)
+    elif nh >= 2 and rng.below(4) == 0:  # a repeated point in the history
+        hist_idx[rng.below(nh)] = list(hist_idx[rng.below(nh)])
+    return hist_idx
+
+
+HIST_REPRS = ("fortran", "strided", "readonly", "float32", "int64", "int32", "float16", "negzero", "list")
+LOSS_REPRS = ("float32", "int64", "list", "strided", "readonly")
+
+
+def gen_sampler_case(rng, kind, space_desc=None, wide=True):
     expensive = kind in EXPENSIVE
-    sp = space_desc or gen_space(rng, max_dims=4 if kind == "cors" else 6)
+    many_ok = kind not in ("cors",)
+    sp = space_desc or gen_space(rng, max_dims=4 if kind == "cors" else 6, wide=wide)
     lens = grid_lengths(sp)
     dims = len(lens)
     bs = rng.randint(1, 3) if kind == "cors" else rng.randint(1, 4) if expensive else rng.randint(1, 8)
@@ -470,24 +863,17 @@ def gen_sampler_case(rng, kind, space_desc=None):
         nh = max(nh, 2)
     if kind == "pso":
         nh = max(nh, 1)  # the second call takes argmin of the losses
-    hist_idx = [[rng.below(n) for n in lens] for _ in range(nh)]
-    if kind == "gp":  # a repeated history point makes sklearn's kernel matrix singular (LinAlgError, not a C03 matter)
-        seen, uniq = set(), []
-        for row in hist_idx:
-            if tuple(row) not in seen:
-                seen.add(tuple(row))
-                uniq.append(row)
-        hist_idx, nh = uniq, len(uniq)
-    elif nh >= 2 and rng.below(4) == 0:  # a repeated point in the history
-        hist_idx[rng.below(nh)] = list(hist_idx[rng.below(nh)])
     ncalls = rng.randint(1, 2) if kind in ("cors", "gp") else rng.randint(1, 4)
     case = {
         "kind": "sampler", "cls": kind, "bounds": sp["bounds"], "precision": sp["precision"], "space_tag": sp["tag"],
         "bs": bs, "seed": rng.below(2 ** 31), "budget": rng.choice([None, 0, 1, 2, 5]), "opts": {},
-        "hist_idx": hist_idx, "losses": gen_losses(rng, nh), "ncalls": ncalls,
+        "hist_idx": None, "losses": None, "ncalls": ncalls,
         "append": [rng.below(3) > 0 for _ in range(ncalls)],
-        "new_losses": [gen_losses(rng, bs) for _ in range(ncalls)],
+        "new_losses": [gen_losses(rng, 8) for _ in range(ncalls)],
     }
+    for k in ("decl", "decl_scribble", "space_verbose"):
+        if sp.get(k):
+            case[k] = sp[k]
     if kind == "pso" and rng.below(2):
         case["opts"] = {"inertia": rng.choice([0.0, 0.5, 0.9, 2.0]), "c1": rng.choice([0.0, 0.1, 1.5]),
                         "c2": rng.choice([0.0, 0.1, 1.5]), "global": bool(rng.below(2))}
@@ -495,6 +881,98 @@ def gen_sampler_case(rng, kind, space_desc=None):
         case["opts"] = {"a": rng.choice([0.5, 1.0, 3.0]), "b": rng.choice([0.5, 1.0, 3.0]), "range": rng.choice([2, 3, 6, 20])}
     if kind == "cors" and rng.below(2):
         case["opts"] = {"max_samples": rng.choice([20, 40, 200]), "rho0": rng.choice([0.1, 0.5, 1.0]), "p": rng.choice([0.5, 1.0, 2.0])}
+        if wide and rng.below(3) == 0:
+            case["opts"]["verbose"] = True
+    if wide and kind == "bestbatch" and case["opts"] and rng.below(3) == 0:  # integer-typed option values
+        case["opts"] = {"a": rng.choice([1, 3]), "b": rng.choice([1, 2]), "range": case["opts"]["range"]}
+    if wide and kind == "gp" and rng.below(2):
+        case["opts"] = {"acquisition": rng.choice(["mean", "expected_improvement"]), "jitter": rng.choice([0.0, 0.1, 1.0]), "restarts": 1}
+    if wide and kind == "rf" and rng.below(2):
+        case["opts"] = {"n_classes": rng.choice([3, 4, 10]), "criterion": rng.choice(["gini", "entropy"]), "n_estimators": rng.choice([1, 4, 9]),
+                        "pool": rng.choice([None, 8, 40, 100])}
+    if wide and kind == "xgb" and rng.below(2):
+        case["opts"] = {"max_depth": rng.choice([1, 2, 4]), "learning_rate": rng.choice([0.05, 0.3, 1.0]),
+                        "colsample_bytree": rng.choice([0.3, 1.0]), "alpha": rng.choice([0.0, 1.0]), "pool": rng.choice([None, 8, 40, 100])}
+    pool = case["opts"].get("pool") or 40
+
+    # ---- the life of the object: plain successive calls, or (round 4) a script with reconfiguration in between
+    max_bs = bs
+    script = None
+    if wide and rng.below(2):
+        script = []
+        cur = bs
+        n_samples = 0
+
+        def maybe_set():
+            nonlocal cur, max_bs
+            r = rng.below(6)
+            if r == 0 and kind != "pso":  # PSO: the swarm size is fixed when it is set up (finding pso-batch-size-reassigned)
+                cur = rng.randint(1, 3) if kind == "cors" else rng.randint(1, min(8, pool)) if not expensive else rng.randint(1, min(5, pool))
+                max_bs = max(max_bs, cur)
+                script.append({"op": "set", "attr": "batch_size", "value": cur})
+            elif r == 1:
+                script.append({"op": "set", "attr": "random_state", "value": rng.below(2 ** 31)})
+            elif r == 2 and kind not in FIXED_BUDGET:
+                script.append({"op": "set", "attr": "max_deduplication_passes", "value": rng.choice([0, 1, 3, 7])})
+            elif r == 3 and kind == "bestbatch":
+                script.append({"op": "set", "attr": rng.choice(["a", "b"]), "value": rng.choice([0.5, 2.0, 3, 1])})
+                script.append({"op": "set", "attr": "perturbation_range", "value": rng.choice([2, 3, 9, 30])})
+            elif r == 3 and kind == "gp":
+                script.append({"op": "set", "attr": "acquisition", "value": rng.choice(["mean", "expected_improvement"])})
+                script.append({"op": "set", "attr": "jitter", "value": rng.choice([0.0, 0.5])})
+
+        maybe_set()
+        for k in range(ncalls + rng.below(2)):
+            script.append({"op": "sample", "append": rng.below(3) > 0, "new_losses": gen_losses(rng, 8)})
+            n_samples += 1
+            r = rng.below(8)
+            if r == 0:
+                how = rng.choice(["short-history", "empty-history", "wrong-width"])
+                script.append({"op": "reject", "how": how})
+            elif r == 1:
+                script.append({"op": "scribble"})
+            elif r == 2:
+                maybe_set()
+            elif r == 3:
+                script.append({"op": "shrink", "keep": None})  # filled below (needs max_bs)
+            elif r == 4 and n_samples < 4:
+                same_dims = kind == "pso" or rng.below(2) == 0
+                for _try in range(20):
+                    sp2 = gen_space(rng, max_dims=4 if kind == "cors" else 6, wide=True)
+                    if (len(sp2["precision"]) == dims) == same_dims and (len(sp2["precision"]) <= 6 or many_ok):
+                        break
+                else:
+                    sp2 = None
+                if sp2 is not None:
+                    script.append({"op": "space", "space": sp2, "hist_idx": None, "losses": None})
+                    if rng.below(2):
+                        script.append({"op": "sample", "append": rng.below(2) > 0, "new_losses": gen_losses(rng, 8)})
+                        n_samples += 1
+                        script.append({"op": "space", "index": 0, "hist_idx": None, "losses": None})
+        if script[-1]["op"] != "sample":
+            script.append({"op": "sample", "append": False, "new_losses": []})
+        # histories (they need the largest batch size of the script)
+        need = max(max_bs, 2) if kind in NEEDS_HISTORY else 1 if kind == "pso" else 0
+        for st in script:
+            if st["op"] == "space":
+                l2 = lens if st.get("index") is not None else grid_lengths(st["space"])
+                n2 = max(need, rng.choice([0, 1, max_bs + rng.randint(0, 6)]))
+                st["hist_idx"] = gen_history(rng, kind, l2, n2)
+                st["losses"] = gen_losses(rng, len(st["hist_idx"]))
+            elif st["op"] == "shrink":
+                st["keep"] = max(need, rng.randint(0, 3))
+        nh = max(nh, need)
+        case["script"] = script
+    case["hist_idx"] = gen_history(rng, kind, lens, nh)
+    case["losses"] = gen_losses(rng, len(case["hist_idx"]))
+    if wide and kind == "bestbatch" and sp["tag"].split("/")[0] in ("dyadic", "int") and rng.below(2):
+        case["hist_repr"] = rng.choice(["float32", "float16", "int64", "int32"])  # held exactly when the points allow it
+    elif wide and rng.below(3) == 0:
+        case["hist_repr"] = rng.choice(HIST_REPRS)
+        if case["hist_repr"] == "list" and kind in ("bestbatch", "gp"):  # fancy-indexing / .shape of the history: ndarray only
+            case["hist_repr"] = "fortran"
+    if wide and rng.below(4) == 0:
+        case["loss_repr"] = rng.choice(LOSS_REPRS)
     return case
 
 
@@ -519,6 +997,77 @@ def fixed_sampler_cases():
                       "space_tag": "probe:pool=batch", "bs": 4, "seed": 1, "budget": 0, "opts": {"pool": 4},
                       "hist_idx": [[0], [5], [7], [2], [9]], "losses": [1.0, 2.0, 3.0, 0.5, 0.7], "ncalls": 1,
                       "append": [False], "new_losses": [[0.1, 0.2, 0.3, 0.4]]})
+    # round 4: BestBatch is the one sampler whose raw matrix is a copy of rows of the caller's history, so the dtype and
+    # layout of the history reach the final snap: histories that hold the grid points exactly in another dtype
+    for rep in ("float32", "float16", "negzero", "strided", "fortran", "readonly"):
+        cases.append({"kind": "sampler", "cls": "bestbatch", "bounds": [[0.0, -2.0], [4.0, 2.0]], "precision": [0.5, 0.25],
+                      "space_tag": "probe:history-dtype", "bs": 3, "seed": 5, "budget": 2, "opts": {}, "hist_repr": rep,
+                      "hist_idx": [[0, 8], [3, 3], [8, 16], [4, 8], [1, 0], [6, 9]], "losses": [0.3, 0.1, 0.2, 0.6, 0.5, 0.4],
+                      "ncalls": 3, "append": [True, False, True], "new_losses": [[0.05, 0.06, 0.07]] * 3})
+    for rep in ("int64", "int32", "float32"):
+        cases.append({"kind": "sampler", "cls": "bestbatch", "bounds": [[0.0, -6.0], [10.0, 6.0]], "precision": [1.0, 2.0],
+                      "decl": "int", "space_tag": "probe:history-dtype", "bs": 3, "seed": 6, "budget": 2, "opts": {}, "hist_repr": rep,
+                      "hist_idx": [[0, 3], [3, 3], [10, 6], [4, 0], [1, 1], [6, 5]], "losses": [0.3, 0.1, 0.2, 0.6, 0.5, 0.4],
+                      "ncalls": 3, "append": [True, False, True], "new_losses": [[0.05, 0.06, 0.07]] * 3})
+    return cases
+
+
+def lifecycle_cases(rng, kind):
+    """Round 4, always run for every class: ONE sampler object taken through a second space of the same dimension and back,
+    a space of another dimension, a batch size assigned after construction, a rejected call, and a caller that overwrites
+    the arrays it passed / received."""
+    expensive = kind in EXPENSIVE
+    bs = rng.randint(1, 3) if kind == "cors" else rng.randint(2, 4)
+    bs2 = rng.randint(1, 3) if kind == "cors" else rng.randint(1, 5)
+    need = max(bs, bs2, 2) + (0 if expensive else 3)
+
+    def space_of_dims(d, avoid_tiny=False):
+        for _ in range(200):
+            sp = gen_space(rng, max_dims=4 if kind == "cors" else 6, wide=True)
+            if len(sp["precision"]) == d and not (avoid_tiny and sp["tag"] == "tiny"):
+                return sp
+        return {"bounds": [[5.0] * d, [6.0] * d], "precision": [0.07] * d, "tag": "fallback"}
+
+    def hist(sp, n):
+        h = gen_history(rng, kind, grid_lengths(sp), n)
+        return h, gen_losses(rng, len(h))
+
+    def smp(append=True):
+        return {"op": "sample", "append": append, "new_losses": gen_losses(rng, 8)}
+
+    def sw(sp):
+        h, l = hist(sp, need)
+        return {"op": "space", "space": sp, "hist_idx": h, "losses": l}
+
+    def back():
+        h, l = hist(w, need)
+        return {"op": "space", "index": 0, "hist_idx": h, "losses": l}
+
+    cases = []
+    w = {"bounds": [[0.0, 0.0], [1.0, 1.0]], "precision": [0.1, 0.3], "tag": "witness:both"}
+    h0, l0 = hist(w, need)
+    script = [smp(), {"op": "scribble"}, sw(space_of_dims(2)), smp(), smp(False)]
+    if kind != "pso":
+        script.append({"op": "set", "attr": "batch_size", "value": bs2})
+    script += [smp(), {"op": "reject", "how": rng.choice(["short-history", "wrong-width", "empty-history"])}, smp(), back(), smp()]
+    cases.append({"kind": "sampler", "cls": kind, "bounds": w["bounds"], "precision": w["precision"], "space_tag": "lifecycle:same-dims",
+                  "bs": bs, "seed": rng.below(2 ** 31), "budget": rng.choice([None, 0, 2]), "opts": {}, "hist_idx": h0, "losses": l0,
+                  "ncalls": 0, "append": [], "new_losses": [], "script": script})
+    if kind != "pso":  # the swarm keeps the dimension it was set up with
+        d0 = rng.randint(1, 3)
+        sp0 = space_of_dims(d0)
+        w = sp0
+        h0, l0 = hist(sp0, need)
+        other = space_of_dims(d0 + 1 if d0 < 3 else rng.randint(1, 2))
+        script = [smp(), sw(other), smp(), {"op": "set", "attr": "random_state", "value": rng.below(2 ** 31)}, smp(False),
+                  {"op": "shrink", "keep": max(bs, 2)}, smp(), back(), smp()]
+        case = {"kind": "sampler", "cls": kind, "bounds": sp0["bounds"], "precision": sp0["precision"], "space_tag": "lifecycle:other-dims",
+                "bs": bs, "seed": rng.below(2 ** 31), "budget": rng.choice([None, 0, 2]), "opts": {}, "hist_idx": h0, "losses": l0,
+                "ncalls": 0, "append": [], "new_losses": [], "script": script}
+        for k in ("decl", "decl_scribble", "space_verbose"):
+            if sp0.get(k):
+                case[k] = sp0[k]
+        cases.append(case)
     return cases
 
 
@@ -580,18 +1129,111 @@ def declaration_alias_probe(chk):
     return n
 
 
-def gen_calibration(rng, quick):
-    sp = gen_space(rng, max_dims=3)
+def gen_calibration(rng, quick, wide=True, variant=None):
+    sp = gen_space(rng, max_dims=3, wide=wide)
     first = rng.choice(["halton", "uniform", "rseq"])
     others = [k for k in ALL9 if k != "gp" or not quick]
     lineup = [(first, rng.randint(2, 4))]
     for _ in range(rng.randint(1, 3)):
         k = rng.choice(others)
-        lineup.append((k, rng.randint(1, 3) if k != "cors" else rng.randint(1, 2)))
+        bs_k = rng.randint(1, 3) if k != "cors" else rng.randint(1, 2)
+        if k == "bestbatch":  # needs at least batch_size points in the history: the first sampler's batch is all there is at first
+            bs_k = min(bs_k, lineup[0][1])
+        lineup.append((k, bs_k))
     dims = len(sp["precision"])
-    return {"kind": "calibration", "bounds": sp["bounds"], "precision": sp["precision"], "space_tag": sp["tag"],
+    case = {"kind": "calibration", "bounds": sp["bounds"], "precision": sp["precision"], "space_tag": sp["tag"],
             "lineup": lineup, "ensemble": rng.randint(1, 2), "nbatches": rng.randint(2, 3), "seed": rng.below(2 ** 31),
             "true_theta": [0.5 * (a + b) for a, b in zip(sp["bounds"][0], sp["bounds"][1])], "dims": dims}
+    if sp.get("decl"):
+        case["decl"] = sp["decl"]
+    if wide:  # non-default configuration and sequences of sessions (`variant` cycles so that a quick run has each of them)
+        r = rng.below(5) if variant is None else variant % 5
+        if r == 0:
+            case["n_jobs"] = 2
+        elif r == 1:
+            case["sessions"] = [case["nbatches"], rng.randint(1, 2)]
+            case["restore_between"] = True
+        elif r == 2:
+            case["sessions"] = [case["nbatches"], rng.randint(1, 2)]
+            case["saving_folder"] = bool(rng.below(2))
+        elif r == 3:
+            case["sim_length"] = rng.choice([8, 20])  # != the 12 rows of the data: needs a loss that accepts it (moments)
+        else:
+            case["convergence_precision"] = rng.choice([1, 9])
+            case["verbose"] = True
+            case["ensemble"] = rng.choice([1, 3])
+    return case
+
+
+# ------------------------------------------------------------------ round-4 probes
+def declaration_representation_probe(chk):
+    """The declared space does not depend on the container / dtype the caller used for the same numbers: the grid of every
+    representation is, byte for byte, arange(lower, upper + 1e-7, precision) of the float64 values."""
+    from black_it.search_space import SearchSpace
+
+    n = 0
+    descs = [
+        {"bounds": [[0.0, -5.0, 2.0], [10.0, 5.0, 3.0]], "precision": [1.0, 2.0, 0.25]},
+        {"bounds": [[0.0, -6.0], [10.0, 6.0]], "precision": [2.5, 0.5]},           # integer bounds, fractional precision
+        {"bounds": [[-3.0], [4.0]], "precision": [3.0]},                              # last multiple (3) below the bound (4)
+        {"bounds": [[0.5, 1024.0], [1.0, 1030.0]], "precision": [0.0625, 0.75]},
+        {"bounds": [[16777216.0], [16777232.0]], "precision": [2.0]},                 # 2^24: float32-exact, far from the origin
+    ]
+    for desc in descs:
+        ref = DeclaredSpace(desc)
+        for decl in DECLS:
+            if not decl_applicable(desc, decl):
+                continue
+            n += 1
+            try:
+                with contextlib.redirect_stdout(io.StringIO()):
+                    sp = make_space(desc, {**desc, "decl": decl})
+                fails = grid_definition_fails(sp, ref, None, f"{decl} declaration")
+            except Exception as e:  # noqa: BLE001
+                fails = [f"grid-definition: SearchSpace rejected the {decl} declaration: {type(e).__name__}: {str(e)[:150]}"]
+            if fails:
+                chk.violation({"kind": "oracle", "clause": "grid-definition", "declaration": decl},
+                              {"failed": "oracle:" + fails[0], "case": {"kind": "decl_probe", **desc, "decl": decl}})
+    return n
+
+
+def pso_batch_size_probe(chk):
+    """FINDING pso-batch-size-reassigned.  `batch_size` is a public attribute that BaseSampler.sample reads at every call;
+    ParticleSwarmSampler sizes its swarm once (nb_particles at construction, positions at the first call) and keeps
+    returning that many rows."""
+    from black_it.samplers.particle_swarm import ParticleSwarmSampler
+    from black_it.search_space import SearchSpace
+
+    sp = SearchSpace([[0.0, -1.0], [1.0, 1.0]], [0.125, 0.25], verbose=False)
+    g = sp.param_grid
+    n = 0
+    for new_bs, when in ((2, "after-set-up"), (5, "after-set-up"), (2, "before-first-call")):
+        n += 1
+        rng = np.random.default_rng(7)
+        pts = np.array([[gg[rng.integers(len(gg))] for gg in g] for _ in range(9)])
+        losses = rng.random(9)
+        smp = ParticleSwarmSampler(batch_size=3, random_state=1)
+        outs = []
+        try:
+            if when == "before-first-call":
+                smp.batch_size = new_bs
+            out = smp.sample(sp, pts, losses)
+            outs.append((out, new_bs if when == "before-first-call" else 3))
+            pts, losses = np.concatenate((pts, out)), np.concatenate((losses, rng.random(len(out))))
+            if when == "after-set-up":
+                smp.batch_size = new_bs
+            out = smp.sample(sp, pts, losses)
+            outs.append((out, new_bs))
+        except Exception as e:  # noqa: BLE001
+            chk.notes.append(f"pso batch_size 3 -> {new_bs} {when}: {type(e).__name__}: {str(e)[:100]}")
+            continue
+        bad = [(o.shape, want) for o, want in outs if o.shape != (want, 2)]
+        if bad:
+            chk.violation({"kind": "oracle", "clause": "shape", "class": "pso", "with": "batch_size-reassigned"},
+                          {"failed": f"oracle:shape: ParticleSwarmSampler(batch_size=3), batch_size reassigned to {new_bs} {when}: "
+                                     f"sample() returned shape {bad[0][0]}, batch_size in force {bad[0][1]}",
+                           "case": {"kind": "pso_batch_size_probe", "new_bs": new_bs, "when": when}})
+    return n
 
 
 # ------------------------------------------------------------------ Coq literals
@@ -616,15 +1258,18 @@ def grids_lit(grid):
 
 
 def coq_candidates(case, obs, max_cells=700, max_rows=12):
-    """(literal, meta) for the recorded sample_batch calls small enough to be shipped to Coq."""
+    """(literal, meta) for the recorded sample_batch calls small enough to be shipped to Coq (each with the grid of the space
+    that was in force at that call)."""
     res = []
-    grid = obs["space"].param_grid
-    if sum(len(g) for g in grid) > max_cells:
-        return res
     for b, batch in enumerate(obs["batches"]):
+        grid = obs["spaces"][batch["space_i"]].param_grid
+        if sum(len(g) for g in grid) > max_cells:
+            continue
         for j, c in enumerate(batch["calls"]):
             out = c["snap"]
             if not isinstance(out, np.ndarray) or out.ndim != 2 or out.shape[0] > max_rows or out.shape[0] == 0:
+                continue
+            if out.dtype != np.float64:
                 continue
             if case["cls"] == "uniform":
                 rep = replay_uniform(c, grid)
@@ -649,9 +1294,16 @@ def describe(case):
     return {k: v for k, v in case.items() if k not in ("new_losses",)}
 
 
+def describe_cal(case):
+    return {k: case.get(k) for k in ("bounds", "precision", "decl", "lineup", "n_jobs", "sim_length", "sessions", "restore_between")
+            if case.get(k) is not None}
+
+
 def summarise_obs(obs):
     return {"error": obs.get("error"), "skipped": obs.get("skipped"),
-            "batches": [b["out"].tolist() if isinstance(b["out"], np.ndarray) else repr(b["out"]) for b in obs.get("batches", [])],
+            "batches": [b["out_copy"].tolist() if isinstance(b["out_copy"], np.ndarray) else repr(b["out_copy"]) for b in obs.get("batches", [])],
+            "batch_size_in_force": [b["bs"] for b in obs.get("batches", [])], "space_in_force": [b["space_i"] for b in obs.get("batches", [])],
+            "rejected_calls": dict(obs.get("rejected", {})),
             "sample_batch_sizes": [[c["n"] for c in b["calls"]] for b in obs.get("batches", [])]}
 
 
@@ -664,10 +1316,14 @@ def run(chk, replay=None):
     chk.proof_gate()
     n_poolval = pool_validation(chk)
     n_poolval += declaration_alias_probe(chk)
+    n_poolval += declaration_representation_probe(chk)
+    n_poolval += pso_batch_size_probe(chk)
     quick = chk.tier == "quick"
     r = chk.rng
     if replay:
         cases = [json.loads(open(replay).read())["case"]]
+        if cases[0].get("kind") not in ("sampler", "calibration"):  # a probe: it has just been re-run above
+            cases = []
     else:
         cases = fixed_sampler_cases()
         corpus = chk.case_dir.parents[2] / "corpus" / "C03"
@@ -679,10 +1335,13 @@ def run(chk, replay=None):
                 if kind == "cors" and len(w["precision"]) > 2 and quick:
                     continue
                 cases.append(gen_sampler_case(r, kind, space_desc={**w, "bounds": [list(w["bounds"][0]), list(w["bounds"][1])],
-                                                                 "precision": list(w["precision"])}))
-            for _ in range(n_spaces):
-                cases.append(gen_sampler_case(r, kind))
-        cases += [gen_calibration(r, quick) for _ in range(6 if quick else 40)]
+                                                                 "precision": list(w["precision"])}, wide=False))
+            for _ in range(1 if quick else 6):
+                cases += lifecycle_cases(r, kind)
+            for i in range(n_spaces):
+                cases.append(gen_sampler_case(r, kind, wide=(i % 2 == 1)))  # half as before round 4, half with the round-4 dimensions
+        v0 = r.below(5)
+        cases += [gen_calibration(r, quick, wide=(i % 2 == 1), variant=v0 + i // 2) for i in range(8 if quick else 40)]
 
     stats = Counter()
     lits, lit_owner = [], []
@@ -693,15 +1352,19 @@ def run(chk, replay=None):
     samples = []
     per_class_coq = Counter()
     coq_cap = 45 if quick else 300
-    pending = []  # (case index, case, tie failures) to decide after Coq
     for ci, case in enumerate(cases):
         if case["kind"] == "calibration":
             obs = run_calibration(case)
             stats["calibration:runs"] += 1
             if obs["skipped"] or obs["error"]:
                 stats[f"calibration:{'skipped' if obs['skipped'] else 'exception:' + obs['error'].split(':')[0]}"] += 1
+                if obs["error"] and len(chk.notes) < 12:
+                    chk.notes.append(f"calibration: {obs['error']} ({describe_cal(case)})")
                 continue
             stats["calibration:simulations"] += obs["n_sim"]
+            for k in ("n_jobs", "sim_length", "sessions", "restore_between", "saving_folder", "convergence_precision", "decl"):
+                if case.get(k):
+                    stats[f"calibration:with:{k}"] += 1
             n_eval += 1
             if obs["fails"]:
                 clause = obs["fails"][0].split(":")[0]
@@ -715,19 +1378,51 @@ def run(chk, replay=None):
         kind = case["cls"]
         stats[f"class:{kind}"] += 1
         obs = run_sampler_case(case)
+        if obs["space_error"]:
+            # every generated declaration is a valid one (lower < upper, 0 < precision <= range): it must be accepted
+            chk.violation({"kind": "oracle", "clause": "grid-definition", "declaration": "rejected"},
+                          {"failed": "oracle:grid-definition: SearchSpace rejected a valid declaration: " + obs["space_error"],
+                           "case": case})
+            continue
         if obs["skipped"]:
             stats[f"skipped:{kind}:timeout"] += 1
-            continue
         if obs["error"]:
             stats[f"exception:{kind}:{obs['error'].split(':')[0]}"] += 1
             if len(chk.notes) < 12:
-                chk.notes.append(f"{kind}: {obs['error']} on space {case['bounds']} / {case['precision']}")
+                chk.notes.append(f"{kind}: {obs['error']} on space {case['bounds']} / {case['precision']}"
+                                 + (f" script {[s_['op'] for s_ in case['script']]}" if case.get("script") else ""))
+        if not obs["batches"]:
             continue
-        per_class_ok[kind] += 1
+        # every batch that WAS returned is judged, also when a later step of the case raised or timed out
+        if not (obs["error"] or obs["skipped"]):
+            per_class_ok[kind] += 1
         n_eval += len(obs["batches"])
         stats[f"space:{case['space_tag']}"] += 1
         stats[f"dims:{len(case['precision'])}"] += 1
-        stats[f"calls:{case['ncalls']}"] += 1
+        stats[f"calls:{len(obs['batches'])}"] += 1
+        for k in ("decl", "hist_repr", "loss_repr"):
+            if case.get(k):
+                stats[f"{k}:{case[k]}"] += 1
+        if case.get("decl_scribble"):
+            stats["decl:arrays-reused-by-caller"] += 1
+        if case.get("space_verbose"):
+            stats["space:verbose"] += 1
+        if case.get("script"):
+            stats["scripted"] += 1
+            for st in case["script"]:
+                if st["op"] == "set":
+                    stats[f"step:set:{st['attr']}"] += 1
+                elif st["op"] == "space":
+                    stats["step:space:" + ("back" if st.get("index") is not None else
+                                           "same-dims" if len(st["space"]["precision"]) == len(case["precision"]) else "other-dims")] += 1
+                elif st["op"] != "sample":
+                    stats[f"step:{st['op']}"] += 1
+        for k, v in obs["rejected"].items():
+            stats[f"rejected-call:{k}"] += v
+        if len(obs["spaces"]) > 1:
+            stats["sampler-used-on-several-spaces"] += 1
+        if any(sum(len(g) for g in sp.param_grid) and math.prod(len(g) for g in sp.param_grid) >= 2 ** 63 for sp in obs["spaces"]):
+            stats["space:>=2^63-points"] += 1
         redraws = sum(max(0, len(b["calls"]) - 1) for b in obs["batches"])
         n_redraw_calls += redraws
         if redraws:
@@ -747,7 +1442,7 @@ def run(chk, replay=None):
                 nt = nt or (isinstance(o, np.ndarray) and o.ndim == 2 and any(len(set(o[:, k])) > 1 for k in range(o.shape[1])))
             elif c["digitize"]:
                 d = c["digitize"][-1]
-                if isinstance(d["out"], np.ndarray) and d["raw"].shape == d["out"].shape:
+                if isinstance(d["out"], np.ndarray) and d["raw"].shape == d["out"].shape and d["out_bytes"] is not None:
                     nt = nt or bool(np.any(d["raw"] != np.frombuffer(d["out_bytes"], dtype=d["out"].dtype).reshape(d["raw"].shape)))
         if nt:
             nontrivial.add(key)
@@ -813,7 +1508,8 @@ def run(chk, replay=None):
         "distinct": len(keys),
         "distinct_nontrivial": len(nontrivial),
         "rule": "one evaluation = one sample() call of a real built-in sampler (or one real Calibrator run) checked by the "
-                "direct oracle, with every sample_batch call inside it checked by the structural tie; distinct = distinct "
+                "direct oracle against the space as declared and the batch size in force at that call, with every sample_batch "
+                "call inside it checked by the structural tie; distinct = distinct "
                 "(class, space, history, seed, batch size); non-trivial = the final snap changed at least one raw value "
                 "(raw != returned somewhere; for the uniform sampler: a column with >= 2 distinct drawn elements)",
         "samples": samples,
@@ -824,6 +1520,8 @@ def run(chk, replay=None):
         "tolerant_cases": len(tol_idx),
         "tolerant_cases_where_slack_was_needed": len(slack_used),
         "per_class_completed": dict(per_class_ok),
+        "bounds_clause": dict(BOUNDS_STATS),
+        "probes_run": n_poolval,
         "distribution": dict(sorted(stats.items())),
     }
     return chk.finish(
@@ -834,6 +1532,10 @@ def run(chk, replay=None):
             "Generator.choice(params, size=n) returns params[idx] with 0 <= idx < len(params) (checked each run by replaying "
             "Generator.integers on a copy of the generator state) - hypothesis idx_ok",
             "every grid is non-empty (SearchSpace validation: precision <= range gives >= 2 elements; property C15)",
+            "one object reconfigured between calls: the contracts above hold for whatever space is in force at a call "
+            "(hypothesis contracts_any_space of C03_main_reconfigured); a failed call may leave any internal state",
+            "the declared space is numpy's arange(lower, upper + 1e-7, precision) on the float64 values of the declaration "
+            "(reference of the grid-definition clause; numpy's arange itself is trusted here, it is C15's subject)",
             "coordinates are compared by float ==; sample() moves rows (fancy-index assignment) without arithmetic (C12)",
             "the precision grid is the exact-rational arange of C15's model for the bounds clause (C03_grid_within_bounds); "
             "float rounding of arange itself is C15's subject, the oracle allows 4*len(grid) ulp on the bounds clause only",
